@@ -292,7 +292,7 @@ def run_iface(case):
                              policy=case["policy"],
                              policy_param=case["policy_param"],
                              choices=case.get("choices"), max_steps=200000)
-                with eread.sim_bindings(), sc:
+                with eread.sim_bindings(ds), sc:
                     s = plan[0]
                     results[s] = [dsgen.canon(e, st["attrs"])
                                   for e in eread.make_iter(
